@@ -132,6 +132,7 @@ def label_rule(prog, res):
     mut = [n for n in f.calls() if n['callee']['qname'] == 'ezc3d::DataNS::Data::frame']
     okl = False
     why = 'no loop over POINT:LABELS that looks every label up in the frame'
+    partial = False     # the look-up was recognised and is demonstrably incomplete / wrongly classified
     for t in f.all_nodes({'CXXTryStmt'}):
         calls = [f.nodes[x] for x in f.descendants(t['body']) if f.nodes[x]['k'] == 'CXXMemberCallExpr' and f.nodes[x]['callee']['name'] == 'pointIdx']
         if not calls:
@@ -145,10 +146,12 @@ def label_rule(prog, res):
         lab = 'this._parameters.group("POINT").parameter("LABELS").valuesAsString()'
         if lf['bound'] != lab + '.size':
             why = 'label loop runs to %s, not POINT:LABELS.size' % lf['bound']
+            partial = True
             continue
         fs = [lf['node']]
         if R.render(f.call_obj(c)) != 'arg0._points' or R.render(c['args'][0]) != '%s[local:%s]' % (lab, lf['name']):
             why = 'look-up is %s.pointIdx(%s)' % (R.render(f.call_obj(c)), R.render(c['args'][0]))
+            partial = True
             continue
         hs = [f.nodes[h] for h in t['handlers']]
         good = False
@@ -162,6 +165,7 @@ def label_rule(prog, res):
                 break
         if not good:
             why = 'a missing label does not end in std::invalid_argument'
+            partial = True
             continue
         lv = g.vertex_of.get(fs[0]) or g.vertex_of.get(f.nodes[fs[0]].get('cond', -1))
         cv = g.vertex_of.get(c['id'])
@@ -170,8 +174,38 @@ def label_rule(prog, res):
             okl = True
     if okl:
         res.ok('label-rule', 'frame: every POINT:LABELS entry must be present in the frame', f.loc(), 'loop over all labels, look-up failure -> std::invalid_argument, before the store', function=f.sig, expr='labels')
+    elif partial or not mentions_with_refusal(f, R, 'parameter("LABELS")'):
+        res.viol('label-rule', 'frame: every POINT:LABELS entry must be present in the frame', f.loc(), why +
+                 ('' if partial else ': nothing in the function tests the frame against POINT:LABELS and refuses'), function=f.sig, expr='labels')
     else:
-        res.viol('label-rule', 'frame: every POINT:LABELS entry must be present in the frame', f.loc(), why, function=f.sig, expr='labels')
+        res.undecided('label-rule', 'frame: every POINT:LABELS entry must be present in the frame', f.loc(),
+                      'the labels are tested in a form the rule does not read (%s)' % why, function=f.sig, expr='labels')
+
+
+def mentions_with_refusal(f, R, text):
+    """some throw in f is control-dependent on (or handles a failure of) an expression that mentions `text`"""
+    texts = [text]
+    for n in f.all_nodes({'DeclStmt'}):
+        for d in n['decls']:
+            if 'init' in d and text in R.render(d['init']):
+                texts.append('local:' + d['name'])
+    return any(_mentions_with_refusal(f, R, t) for t in texts)
+
+
+def _mentions_with_refusal(f, R, text):
+    for n in f.all_nodes({'IfStmt'}):
+        if text in R.render(n['cond']) and any(f.nodes[x]['k'] == 'CXXThrowExpr' for x in f.descendants(n['then']) + (f.descendants(n['else']) if 'else' in n else [])):
+            return True
+    for t in f.all_nodes({'CXXTryStmt'}):
+        body = ' '.join(R.render(x) for x in f.descendants(t['body']) if f.nodes[x]['k'] in ('CXXMemberCallExpr', 'CallExpr', 'CXXOperatorCallExpr'))
+        if text in body and any(f.nodes[x]['k'] == 'CXXThrowExpr' for h in t['handlers'] for x in f.descendants(h)):
+            return True
+    # a loop over the labels whose body can throw (by a call or explicitly)
+    for n in f.all_nodes({'ForStmt', 'CXXForRangeStmt', 'WhileStmt'}):
+        hdr = ' '.join(R.render(n[k]) for k in ('cond', 'range') if k in n)
+        if text in hdr:
+            return True
+    return False
 
 
 def duplicate_rule(prog, res, q, ptype0, group, name_re):
@@ -180,6 +214,7 @@ def duplicate_rule(prog, res, q, ptype0, group, name_re):
     lab = 'this._parameters.group("%s").parameter("LABELS").valuesAsString()' % group
     inst = '%s(frames): a name that already exists is refused' % f.name
     ok = False
+    partial = False
     why = 'no comparison of each new name with every existing label that throws std::invalid_argument'
     for n in f.all_nodes({'IfStmt'}):
         c = R.render(n['cond'])
@@ -188,6 +223,28 @@ def duplicate_rule(prog, res, q, ptype0, group, name_re):
             continue
         m = re.match(r'^!\(\(bool\)(.*)\.compare\((.*)\)\)$', c) or re.match(r'^\((.*) == (.*)\)$', c) or re.match(r'^std::operator==\((.*),(.*)\)$', c)
         if not m:
+            # std::find(L.begin(), L.end(), name) != L.end()   with L the label list (or an unmodified copy of it)
+            fm = re.match(r'^(?:__gnu_cxx::|std::)?operator!=\(std::find\((.*)\.begin\(\),(.*)\.end\(\),(.*)\),(.*)\.end\(\)\)$', c)
+            if fm and fm.group(1) == fm.group(2) == fm.group(4):
+                L = fm.group(1)
+                lm = re.match(r'^local:(\w+)$', L)
+                if lm:
+                    for dn in f.all_nodes({'DeclStmt'}):
+                        for d in dn['decls']:
+                            if d['name'] == lm.group(1) and 'init' in d and R.render(d['init']) == lab and R._base_local is not None:
+                                # the copy must not be modified before the test
+                                muts = [x for x in f.calls() if x.get('obj') is not None and not x['callee'].get('const') and x['callee']['name'] not in ('begin', 'end', 'cbegin', 'cend')
+                                        and R._base_local(x['obj']) == d['id']]
+                                if not muts:
+                                    L = lab
+                if L == lab and re.match(name_re, fm.group(3)):
+                    nv = re.match(name_re, fm.group(3)).group(1)
+                    lf = {x['name']: x['bound'] for x in loops_around(f, n['id'], R) if x['name'] is not None}
+                    if nv in lf:
+                        ok = True
+                    else:
+                        why = 'new names are not all compared'
+                        partial = True
             continue
         a, b = m.group(1), m.group(2)
         sides = sorted([a, b])
@@ -204,15 +261,19 @@ def duplicate_rule(prog, res, q, ptype0, group, name_re):
             continue
         if lf.get(lv) != lab + '.size':
             why = 'existing labels are not all compared (loop bound %s)' % lf.get(lv)
+            partial = True
             continue
         if nv not in lf:
             why = 'new names are not all compared'
+            partial = True
             continue
         ok = True
     if ok:
         res.ok('duplicate-rule', inst, f.loc(), 'every new name x every %s:LABELS entry compared for equality -> std::invalid_argument' % group, function=f.sig, expr='duplicate')
+    elif partial or not mentions_with_refusal(f, R, 'parameter("LABELS")'):
+        res.viol('duplicate-rule', inst, f.loc(), why + ('' if partial else ': nothing in the function tests the new names against %s:LABELS and refuses' % group), function=f.sig, expr='duplicate')
     else:
-        res.viol('duplicate-rule', inst, f.loc(), why, function=f.sig, expr='duplicate')
+        res.undecided('duplicate-rule', inst, f.loc(), 'the new names are tested against the labels in a form the rule does not read (%s)' % why, function=f.sig, expr='duplicate')
 
 
 def lock_rule(prog, res):
